@@ -15,6 +15,9 @@
  *     g.bcov     the arbitrary ghost byte g_b (universally quantified: ING) has been zero-stored
  */
 #include "qbe_mem.h"
+#ifndef ZCALL
+#define ZCALL CALL
+#endif
 
 struct zghost {
 	u64 pos;          /* bytes [g_off0, pos) have been zero-stored, contiguously, in increasing order      */
@@ -23,7 +26,8 @@ struct zghost {
 	bool have_tmp;    /* g_tmp currently holds addr + tmpoff                                                */
 	bool ok_op;       /* every instruction is `add` or an integer store storeb/h/w/l                        */
 	bool ok_add;      /* every add is  =l add addr, <intconst>                                              */
-	bool ok_val;      /* every store stores the integer constant 0                                          */
+	struct value *vptr; /* value operand of the first store                                                   */
+	bool ok_val;      /* every store stores one and the same operand object [QBE.zero.value: holding INTCONST 0] */
 	bool ok_dst;      /* every store's address operand is addr (offset 0) or the temporary of the last add  */
 	bool ok_contig;   /* every store starts where the previous one ended (first one at `offset`)            */
 	bool ok_natural;  /* every store's size divides its byte offset (natural alignment of the access)       */
@@ -32,7 +36,7 @@ struct zghost {
 };
 struct zghost g;
 /* enum constants are not visible to the loop-contract parser: name them through objects */
-const int k_storeb = ISTOREB, k_storeh = ISTOREH, k_storew = ISTOREW, k_storel = ISTOREL, k_intconst = VALUE_INTCONST;
+const int k_storeb = ISTOREB, k_storeh = ISTOREH, k_storew = ISTOREW, k_storel = ISTOREL;
 u64 g_off0, g_end, g_b;          /* pre-state offset/end, arbitrary byte index */
 int g_align;
 struct value *g_addr;
@@ -80,8 +84,18 @@ rec_funcinst(struct func *f, int op, int class, struct value *arg0, struct value
 	}
 	if (class != 0)
 		g.ok_op = 0;
+	/* value operand: one and the same object for every store (zero() does not write it: frame) ... */
+	if (g.vptr == 0)
+		g.vptr = arg0;
+	if (arg0 == 0 || arg0 != g.vptr)
+		g.ok_val = 0;
+#ifdef Z_CHECK_VALUE
+	/* ... which holds the integer constant 0.  The operand is zero()'s function-local `static struct value z`;
+	   DFCC nondet-initialises function-local statics and a contract cannot name them, so the content is checked
+	   only by the non-DFCC unit QBE.zero.value, where statics have their initialisers. */
 	if (arg0 == 0 || arg0->kind != VALUE_INTCONST || arg0->u.i != 0)
 		g.ok_val = 0;
+#endif
 	if (arg1 == g_addr)
 		at = 0;
 	else if (arg1 == &g_tmp && g.have_tmp)
@@ -102,6 +116,11 @@ rec_funcinst(struct func *f, int op, int class, struct value *arg0, struct value
 	return &g_none;
 }
 
+#ifdef Z_END_MAX
+#define Z_BOUND(X) X(end <= Z_END_MAX)    /* bounded stand-in (QBE.zero.value only) */
+#else
+#define Z_BOUND(X)
+#endif
 #define Z_ENDUP  SPEC_ALIGNUP(g_end, g_align)
 
 #define PRE(X) \
@@ -110,7 +129,8 @@ rec_funcinst(struct func *f, int op, int class, struct value *arg0, struct value
 	/* machine arithmetic: object sizes are far below 2^62 (offset + 8 and ALIGNUP(end) must not wrap) */ \
 	X(offset <= (1ull << 62) && end <= (1ull << 62)) \
 	X(offset == g_off0 && end == g_end) \
-	X(g.pos == offset && g.n == 0 && !g.have_tmp && !g.bcov) \
+	Z_BOUND(X) \
+	X(g.pos == offset && g.n == 0 && !g.have_tmp && !g.bcov && g.vptr == 0) \
 	X(g.ok_op && g.ok_add && g.ok_val && g.ok_dst && g.ok_contig && g.ok_natural && g.ok_size)
 
 #define POST(X) \
@@ -136,7 +156,7 @@ rec_funcinst(struct func *f, int op, int class, struct value *arg0, struct value
 	X(IMP(g_b < g_off0, !g.bcov)) \
 	/* empty range: no instruction at all */ \
 	X(IMP(g_off0 >= g_end, g.n == 0 && g.pos == g_off0)) \
-	CANARY(X, !(g_align == Z_ALIGN_MIN && g_off0 == 3 && g_end == 29 && g_b == 17))
+	CANARY(X, !(g_align == Z_ALIGN_MIN && g_off0 == 3 && g_end == 9 && g_b == 7))
 
 static void zero_contract(struct func *func, struct value *addr, int align, unsigned long long offset, unsigned long long end)
 REQUIRES(PRE)
@@ -156,7 +176,7 @@ zero_harness(void)
 	ING(u64, g_b);
 
 	g_func = func; g_addr = addr; g_align = align; g_off0 = offset; g_end = end;
-	g.pos = offset; g.tmpoff = 0; g.n = 0; g.have_tmp = 0; g.bcov = 0;
+	g.pos = offset; g.tmpoff = 0; g.n = 0; g.have_tmp = 0; g.bcov = 0; g.vptr = 0;
 	g.ok_op = g.ok_add = g.ok_val = g.ok_dst = g.ok_contig = g.ok_natural = g.ok_size = 1;
-	CALL(PRE, POST, zero(func, addr, align, offset, end));
+	ZCALL(PRE, POST, zero(func, addr, align, offset, end));
 }
